@@ -15,6 +15,8 @@
 #include <nix/Dimensions.hpp>
 #include <nix/Hydra.hpp>
 
+#include <stdexcept>
+
 #include <nix/Platform.hpp>
 
 namespace nix {
@@ -88,6 +90,11 @@ void DataSet::setData(const T &value)
 
     DataType dtype = hydra.element_data_type();
     NDSize shape = hydra.shape();
+
+    // text and numbers cannot be converted into each other: refuse before the data is resized
+    if ((dtype == DataType::String) != (dataType() == DataType::String)) {
+        throw std::invalid_argument("DataSet::setData: element type of the data cannot be converted to the stored element type");
+    }
 
     dataExtent(shape);
     setData(dtype, hydra.data(), shape, {});
